@@ -35,6 +35,9 @@ package redisemu
 // on only by EXEC to the commands it replays on the database it owns; an id copied onto a command object of another
 // database would pass that database's re-entrancy test by accident
 //@ writers dataStoreCommand.id [C08,C09,C16] : fnExec
+// key versions come from a counter that only ever counts up (WATCH compares versions: a counter set back hands out
+// versions a second time); it is incremented by the four functions that give a key a new version and restored at start-up
+//@ writers dataStore.dataObjectNumber [C10] : dataStore.newStoreKeyUnlocked dataStore.copyStoreKeyUnlocked dataStore.moveStoreKeyUnlocked dataStoreCommand.setModified dataStore.load
 // C05: ghost sets used to state the set algebra: the accumulated operand set (union of the
 // operands processed so far), its value before the current operand, the result's members
 // when the current operand was reached, and the empty set
@@ -145,11 +148,21 @@ package redisemu
 
 // ---- keyspace dictionary (contracts assumed here; proved against the dict representation under C04)
 
+// SRANDMEMBER / HRANDFIELD with a positive count: min(count, cardinality) picks, each an entry of the table
 //@ func redisDict.pickUniqueRandomItems
-//@ trusted
-//@ pure
-//@ requires rd != nil
+//@ prop C04 C05 C08 C16
+//@ safetyprop C13
+//@ requires rd != nil && count >= 0
 //@ requires [C08,C16] locked: held
+//@ requires free wf: dictRepr(rd)
+//@ requires free counted: rd.count >= 0 && rd.count <= 2147483648
+//@ modifies alloc map
+//@ loop 1 invariant len(items) == i && 0 <= i && i <= count && count == ite(old(count) > rd.count, rd.count, old(count))
+//@ loop 1 invariant [C04,C05] members: allsel(k, 0, len(items), items[k] != nil && rd.vdom[items[k].key])
+//@ loop 2 invariant len(items) == i && i < count && count == ite(old(count) > rd.count, rd.count, old(count))
+//@ loop 2 invariant [C04,C05] members: allsel(k, 0, len(items), items[k] != nil && rd.vdom[items[k].key])
+//@ ensures [C04,C05] exact: len(items) == ite(count > rd.count, rd.count, count)
+//@ ensures [C04,C05] members: allsel(k, 0, len(items), items[k] != nil && rd.vdom[items[k].key])
 
 // ---- value constructors: build fresh RESP values, never touch emulator state
 
